@@ -1,25 +1,100 @@
-"""Kani companions, witness searches and replays (DESIGN.md §5 step 4-5). Filled in per property."""
+"""Executable oracles (replay / fallback), Kani companions (DESIGN.md §5 steps 4-5).
+
+The deciding step of every check is the Verus run.  This module adds
+  * witness search: when an obligation fails, the property's executable oracle (a bounded adversarial
+    enumeration in /repo/tests/verif_replay.rs, cargo feature `verif`) is run on the real code; a failing
+    case is the concrete input recorded in the replay file;
+  * fallback: when the deductive check is *undecided* (lost anchor / unsupported construct after a
+    refactoring), the same oracle decides what it can: a failing case is a violation with a concrete
+    input; a passing oracle leaves the run undecided (exit 2) — it never turns it green.
+"""
 import json
 import os
+import re
 import subprocess
+import time
 
 VERIF = os.path.dirname(os.path.dirname(os.path.abspath(__file__)))
+REPO = os.environ.get("VERIF_REPO", "/repo")
+
+ORACLES = {
+    "C01": ["oracle_c01"],
+    "C05": ["oracle_c05"],
+    "C07": ["oracle_c07", "c07_"],
+    "C08": ["oracle_c08", "c08_"],
+    "C09": ["oracle_c09"],
+    "C11": ["oracle_c11", "c11_"],
+    "C16": ["oracle_c16", "c16_"],
+    "C18": ["oracle_c18"],
+}
+
+
+def run_oracles(prop, timeout=1500):
+    """-> dict(ran, cmd, wall_s, tests, failed:[{test, witness, message}], error)"""
+    filters = ORACLES.get(prop)
+    if not filters:
+        return {"ran": False, "reason": "no executable oracle for this property"}
+    if not os.path.exists(os.path.join(REPO, "Cargo.toml")) or not os.path.exists(os.path.join(REPO, "tests", "verif_replay.rs")):
+        return {"ran": False, "reason": f"{REPO} is not a cargo project with tests/verif_replay.rs"}
+    cmd = ["cargo", "test", "--offline", "--features", "verif", "--test", "verif_replay", "--"] + filters + ["--nocapture", "--test-threads", "4"]
+    t0 = time.time()
+    env = dict(os.environ, CARGO_NET_OFFLINE="true", RUST_BACKTRACE="0")
+    try:
+        r = subprocess.run(cmd, cwd=REPO, capture_output=True, text=True, timeout=timeout, env=env)
+    except subprocess.TimeoutExpired:
+        return {"ran": False, "reason": "oracle run timed out", "cmd": " ".join(cmd)}
+    out = r.stdout + "\n" + r.stderr
+    res = {"ran": True, "cmd": "cd %s && %s" % (REPO, " ".join(cmd)), "wall_s": round(time.time() - t0, 1), "failed": [], "tests": []}
+    if "error: could not compile" in out or re.search(r"^error(\[E\d+\])?:", out, re.M) and "test result" not in out:
+        res["ran"] = False
+        res["reason"] = "the crate or the oracle file does not compile with --features verif: " + "\n".join(l for l in out.split("\n") if l.startswith("error"))[:600]
+        return res
+    witnesses = re.findall(r"^WITNESS (.*)$", out, re.M)
+    for m in re.finditer(r"^test (\S+) \.\.\. (\w+)", out, re.M):
+        res["tests"].append({"test": m.group(1), "result": m.group(2)})
+    failed = [t["test"] for t in res["tests"] if t["result"] == "FAILED"]
+    for t in failed:
+        short = t.split("::")[-1]
+        w = None
+        for cand in witnesses:
+            key = short.split("_")[1] if short.startswith("oracle_") else None
+            if key and ('"oracle":"%s"' % key) in cand:
+                w = cand
+                break
+        msg = ""
+        m = re.search(r"thread '%s'[^\n]*panicked at ([^\n]*)\n([^\n]*)" % re.escape(t), out)
+        if m:
+            msg = (m.group(1) + " " + m.group(2)).strip()
+        res["failed"].append({"test": t, "witness": w, "message": msg[:600]})
+    if not res["tests"]:
+        res["ran"] = False
+        res["reason"] = "no oracle test matched " + str(filters)
+    return res
+
+
+def witness_search(prop, violation):
+    """concrete failing input for a failed obligation, or None"""
+    r = run_oracles(prop)
+    if r.get("ran") and r["failed"]:
+        f = r["failed"][0]
+        return {"found_by": "executable oracle " + f["test"], "input": f["witness"] or f["message"], "cmd": r["cmd"], "all_failed": [x["test"] for x in r["failed"]]}
+    return None
 
 
 def run(c, prop, tier, seed):
     raise NotImplementedError(c["name"])
 
 
-def witness_search(prop, violation):
-    """Try to find a concrete failing input on the real code for a failed obligation. None if not found."""
-    return None
-
-
 def replay(prop, path):
     doc = json.load(open(path))
     print(json.dumps({k: doc.get(k) for k in ("property", "obligation", "site", "failing_input_found", "failing_input")}, indent=1))
-    if not doc.get("failing_input_found"):
-        print("replay: no concrete input recorded; the failed obligation and the verifier output are in the file")
-        print(doc.get("verifier_output", ""))
-        return 1
+    r = run_oracles(prop)
+    if r.get("ran"):
+        for t in r["tests"]:
+            print("replay:", t["test"], t["result"])
+        for f in r["failed"]:
+            print("replay WITNESS:", f["witness"] or f["message"])
+        return 1 if r["failed"] else 0
+    print("replay: oracle could not be run:", r.get("reason"))
+    print(doc.get("verifier_output", ""))
     return 1
